@@ -23,7 +23,7 @@ OPS = {
     "C04": (["ClockDominates"], ["C04_Append"], [], ["C04_Append"]),
     "C05": ([], ["C05_EntriesMonotone", "C05_ValuesSubsequence", "C05_OthersUntouched"],
             ["C05_OneContentPerHash", "C05_IndexIntact"],
-            ["C05_EntriesMonotone", "C05_ValuesSubsequence", "C05_DigestsStable", "C05_OthersUntouched"]),
+            ["C05_EntriesMonotone", "C05_ValuesSubsequence", "C05_DigestsStable", "C05_OthersUntouched", "C05_RebuildSucceeds"]),
     "C06": (["C06_HeadsStayInLog"], ["C06_OnlyValidAdded"],
             ["C06_HonestHoldGenuine"],
             ["C06_AppendDenied", "C06_DeniedWriterCannotAppend", "C06_AppendedVerifies", "C06_AllOrNothing",
